@@ -33,7 +33,7 @@ def fingerprint_changes():
     return [n for n in MIRRORED if (cur.get(n) or {}).get('hash') != exp.get(n)]
 
 def budgets(tier, escalate):
-    b = dict(sweeps=2, shards=8, per=8, emf=1) if tier != 'thorough' else dict(sweeps=3, shards=16, per=40, emf=3)
+    b = dict(sweeps=2, shards=8, per=8, emf=1) if tier != 'thorough' else dict(sweeps=10, shards=16, per=150, emf=5)
     if escalate:
         b['sweeps'] += 2; b['per'] *= 3; b['shards'] = 16
     return b
@@ -42,6 +42,11 @@ def run(rep, prop=PROP):
     wd = os.path.join(common.WORK, prop); shutil.rmtree(wd, ignore_errors=True); os.makedirs(wd)
     ok, detail = common.proof_stage(rep, MODULES, ['npdriver'])
     proof_broken = None if ok else detail
+    if ok and rep.tier == 'thorough':   # independent re-check of the property module by the kernel replayer
+        with common.Lock('lake'):
+            rc, o = common.sh(['lake', 'env', 'leanchecker', 'Netpoll.Props.C13', 'Netpoll.Tie.Server'], cwd=common.LEAN, timeout=1200)
+        rep.cov['leanchecker'] = 'ok' if rc == 0 else 'FAILED'
+        if rc != 0: proof_broken = 'leanchecker rejects the property module:\n' + o[-1500:]
     binary, out = srvrun.build()
     if binary is None:
         rep.violation('harness does not build against /repo (does the tree compile?):\n' + out[-2000:], ['# go build failed'], no_input=True)
